@@ -118,6 +118,9 @@ class Lean:
         self.audit = {}          # theorem -> list of axioms
         self.audit_ok = None
         self.audit_log = ''
+        self.checker_ok = None   # leanchecker (thorough tier only): None = not run
+        self.checker_log = ''
+        self.checker_mods = []
 
     def build(self, targets):
         t0 = time.time()
@@ -133,21 +136,37 @@ class Lean:
         self.build_s = time.time() - t0
         return self.build_ok
 
+    def modules_of(self, prop_id):
+        """(sub, module name, path) of the property's theorem files: Props/<id>.lean, Props/<id><Suffix>.lean (a further section
+        of the same property, e.g. C05App.lean) and the same under Witness/"""
+        out = []
+        for sub in ('Props', 'Witness'):
+            d = os.path.join(LEAN_DIR, 'NasdaqModel', sub)
+            for f in sorted(os.listdir(d)) if os.path.isdir(d) else []:
+                if re.fullmatch(re.escape(prop_id) + r'([A-Z][A-Za-z0-9]*)?\.lean', f):
+                    out.append((sub, f'NasdaqModel.{sub}.{f[:-5]}', os.path.join(d, f)))
+        return out
+
     def theorems_of(self, prop_id):
         names = []
-        for sub in ('Props', 'Witness'):
-            path = os.path.join(LEAN_DIR, 'NasdaqModel', sub, f'{prop_id}.lean')
-            if not os.path.exists(path):
-                continue
+        for sub, _mod, path in self.modules_of(prop_id):
             src = open(path).read()
-            ns = re.search(r'^namespace\s+(\S+)', src, re.M).group(1)
-            for m in re.finditer(r'^theorem\s+(\S+)', src, re.M):
-                names.append((sub, f'{ns}.{m.group(1)}'))
+            # namespaces may be opened and closed several times in one file: track the innermost at each theorem
+            ns = []
+            for m in re.finditer(r'^(namespace|end|theorem)[ \t]+(\S+)', src, re.M):
+                kw, name = m.group(1), m.group(2)
+                if kw == 'namespace':
+                    ns.append(name)
+                elif kw == 'end':
+                    if ns and ns[-1].split('.')[-1] == name.split('.')[-1]:
+                        ns.pop()
+                else:
+                    names.append((sub, '.'.join(ns + [name])))
         return names
 
     def import_closure(self, prop_id):
         """the .lean files (inside the project) that Props/<id>.lean and Witness/<id>.lean depend on, transitively"""
-        todo = [f'NasdaqModel.{sub}.{prop_id}' for sub in ('Props', 'Witness')]
+        todo = [mod for _sub, mod, _p in self.modules_of(prop_id)]
         seen = {}
         while todo:
             m = todo.pop()
@@ -175,7 +194,7 @@ class Lean:
     def run_audit(self, prop_id):
         """`#print axioms` for every theorem of Props/<id>.lean and Witness/<id>.lean (cached on the .olean hashes)"""
         thms = self.theorems_of(prop_id)
-        mods = sorted({f'NasdaqModel.{sub}.{prop_id}' for sub, _ in thms})
+        mods = sorted({mod for _sub, mod, _p in self.modules_of(prop_id)})
         key = hashlib.sha256()
         for m in mods:
             ol = os.path.join(LEAN_DIR, '.lake', 'build', 'lib', 'lean', *m.split('.')) + '.olean'
@@ -204,6 +223,21 @@ class Lean:
         if p.returncode == 0:       # only the #print axioms part is cached; the token grep runs every time
             json.dump({'key': key.hexdigest(), 'audit': audit, 'axioms_ok': axioms_ok, 'log': self.audit_log}, open(cache, 'w'))
         return ok
+
+
+    def run_leanchecker(self, prop_id):
+        """thorough tier: Lean's independent re-checker replays every declaration of every project module the property's theorem
+        files import (transitively) through the kernel again"""
+        mods = sorted(self.import_closure(prop_id))
+        t0 = time.time()
+        p = subprocess.run(['lake', 'env', 'leanchecker', *mods], cwd=LEAN_DIR, capture_output=True, text=True)
+        out = (p.stdout + p.stderr)
+        out = '\n'.join(l for l in out.splitlines() if 'WARNING conda' not in l)
+        self.checker_ok = p.returncode == 0 and 'uncaught exception' not in out and 'error' not in out.lower()
+        self.checker_log = out[-3000:]
+        self.checker_mods = mods
+        self.checker_s = round(time.time() - t0, 1)
+        return self.checker_ok
 
 
 class Driver:
@@ -298,7 +332,8 @@ def finish(ctx, n_theorems_expected=None):
     prop_thms = [n for sub, n in thms if sub == 'Props']
     discharged = [n for n in prop_thms if n in lean.audit and set(lean.audit[n]) <= ALLOWED_AXIOMS] \
         if (lean.build_ok and lean.audit_ok is not None) else []
-    proof_broken = (not lean.build_ok) or (not lean.audit_ok) or len(discharged) != len(prop_thms) or not prop_thms
+    proof_broken = (not lean.build_ok) or (not lean.audit_ok) or len(discharged) != len(prop_thms) or not prop_thms \
+        or lean.checker_ok is False
     os.makedirs(os.path.join(VERIF, 'replays'), exist_ok=True)
     rc = 0
     for fid, what in ctx.known_hits:
@@ -320,6 +355,8 @@ def finish(ctx, n_theorems_expected=None):
             broken.append({'lake build failed': lean.build_log[-3000:]})
         elif not lean.audit_ok or len(discharged) != len(prop_thms):
             broken.append({'axiom audit failed': lean.audit_log[-3000:], 'forbidden': lean.forbidden_tokens(ctx.prop)})
+        elif lean.checker_ok is False:
+            broken.append({'leanchecker rejected the compiled modules': lean.checker_log})
         for w, r in ctx.disagreements[:10]:
             broken.append({'correspondence': w, 'case': r})
         json.dump({'property': ctx.prop, 'kind': 'no-failing-input-found',
@@ -336,10 +373,13 @@ def finish(ctx, n_theorems_expected=None):
         'theorems': prop_thms,
         'witness_theorems': [n for sub, n in thms if sub == 'Witness'],
         'axioms': {n: lean.audit.get(n) for _, n in thms},
-        'checker_cmd': f'cd {LEAN_DIR} && lake build NasdaqModel.Props.{ctx.prop} && lake env lean .lake/Audit_{ctx.prop}.lean'
-                       + (' && lake env leanchecker NasdaqModel.Props.' + ctx.prop if ctx.tier == 'thorough' else ''),
+        'checker_cmd': f'cd {LEAN_DIR} && lake build ' + ' '.join(m for _s, m, _p in lean.modules_of(ctx.prop))
+                       + f' && lake env lean .lake/Audit_{ctx.prop}.lean'
+                       + (' && lake env leanchecker ' + ' '.join(lean.checker_mods) if lean.checker_ok is not None else ''),
+        'leanchecker': ({'ok': lean.checker_ok, 'modules': len(lean.checker_mods), 'wall_s': lean.checker_s}
+                        if lean.checker_ok is not None else 'not run in this tier'),
         'trusted_base': [
-            'Lean 4.33.0 kernel' + (' + leanchecker re-check' if ctx.tier == 'thorough' else ''),
+            'Lean 4.33.0 kernel' + (f' + leanchecker re-check of {len(lean.checker_mods)} modules' if lean.checker_ok else ''),
             'axioms: ' + ', '.join(sorted({a for n in prop_thms for a in (lean.audit.get(n) or [])})) ,
             'hand-written Lean model tied to the code by this run\'s correspondence check (harness/' + ctx.prop.lower() + '.py)',
             'Python semantics layer NasdaqModel/Py (int.to_bytes, slicing, strip, struct, int()) — exercised by the correspondence',
